@@ -103,3 +103,21 @@ if __name__ == "__main__":
         confirm(sys.argv[2:])
     elif cmd == "detect":
         detect(sys.argv[2:])
+
+
+def table():
+    rows = []
+    for sid in ids([]):
+        m = json.load(open(os.path.join(SEEDED, sid, "meta.json")))
+        det = m.get("detection", {})
+        cl = (det.get("clauses") or ["?"])[0].replace("clause: ", "").split(" (")[0]
+        needs = " ".join(str(m.get("needs", "")).split())
+        if len(needs) > 230:
+            needs = needs[:227] + "..."
+        rows.append("| `%s` | %s | %s `%s` |" % (sid, needs.replace("|", "\\|"),
+                                               "caught:" if det.get("caught") else "MISSED", cl))
+    print("\n".join(rows))
+
+
+if __name__ == "__main__" and sys.argv[1] == "table":
+    table()
